@@ -1074,10 +1074,16 @@ def gen_testcmd(rng, minimal=False):
         cmd = rng.choice(["test", "test", "build"])
         way = rng.choice(["flag", "env", "toml"])
         if rng.random() < 0.3:
-            e = H.gen_edit(rng, cur, ["content", "salt"])
-            if e and H.wf(e[0]):
-                steps.append(estep(e[0], e[2], e[1]))
-                cur = e[0]
+            w2 = copy.deepcopy(cur)
+            if rng.random() < 0.6:
+                f = rng.choice(sorted(w2["files"]))
+                w2["files"][f] = "w%d\n" % rng.randint(100, 999)
+                steps.append(estep(w2, "content of %s" % f))
+            else:
+                l = rng.choice(sorted(w2["targets"]))
+                w2["targets"][l]["salt"] = "s%d" % rng.randint(10, 99)
+                steps.append(estep(w2, "command of %s" % l))
+            cur = w2
         if way == "toml":
             steps.append(estep(cur, "grog.toml: enable_cache = false", [["grog.toml", toml_off]]))
         steps.append(st(cmd, enable_cache=False, disable_via=way))
